@@ -16,12 +16,18 @@
     - [C10_stuck_set_is_order_independent]: for every input meeting the side conditions of C09.v, if
       the model's loop ends without progress under one schedule it does so under every schedule,
       and lists the same set of items (so the set of stuck items is a function of the input);
-    NOT PROVED: N1/N2 for the model's attempt as a whole (partial).  The monitor decides the property
+    - [C10_attempt_N1]: N1 for the model's real attempt (a successful attempt means every field type
+      resolved and every by-value dependency was resolved before), hence
+      [C10_stuck_set_never_accepted]: an input with a non-empty self-supporting set of items (each
+      has an undefined field type or embeds, by value, a member of the set -- e.g. any by-value
+      cycle) is not accepted under ANY schedule ([C10_cycle_example]: two mutually embedding types);
+    NOT PROVED: N2 for the model's attempt (a deferral always has such a cause -- false as stated when a
+      size overflows: the model, like pyxis, then defers forever), so the converse direction is partial.  The monitor decides the property
     on the real implementation against the graph-theoretic expectation. *)
 From Coq Require Import List Bool NArith String.
 From Coq Require Import Permutation.
 From PyxisModel Require Import Base Grammar SemTypes Registry Sem SemLemmas TotalityLemmas Confluence WholeBuild
-     Monotone OrderIndep.
+     Monotone OrderIndep Stuck.
 Import ListNotations.
 
 Theorem C10_stuck_never_resolves :
@@ -82,3 +88,27 @@ Proof.
   fold fuel in H. rewrite H1 in H. destruct (resolve_loop o2 fuel st0); cbn in H; try contradiction. eauto.
 Qed.
 Print Assumptions C10_stuck_set_is_order_independent.
+
+(** ** N1 for the model's real attempt, and what it implies *)
+Theorem C10_attempt_N1 : forall st0,
+  collision_free (st_reg st0) ->
+  (forall km, In km (st_modules st0) -> clean_module (snd km) = true) ->
+  (forall p it gd, reg_get (st_reg st0) p = Some it -> it_state it = Unresolved gd -> clean_def gd = true) ->
+  NoDup (map fst (reg_types (st_reg st0))) ->
+  forall A k v, att st0 A k = Done _ v ->
+  undefinedb st0 k = false /\ forall d, In d (deps st0 k) -> In d (items st0) -> A d <> None.
+Proof. exact att_N1. Qed.
+Print Assumptions C10_attempt_N1.
+
+Theorem C10_stuck_set_never_accepted : forall ptr mods st0 (S : path -> Prop) k0 order,
+  input_state ptr mods = Ok st0 -> collision_free (st_reg st0) -> clean_stateb st0 = true ->
+  S k0 -> self_supporting path (items st0) (deps st0) (undefinedb st0) S ->
+  (forall l, Permutation (order l) l) ->
+  forall st, pyxis_resolve order ptr mods <> BOk st.
+Proof. exact pyxis_stuck_never_accepted. Qed.
+Print Assumptions C10_stuck_set_never_accepted.
+
+Theorem C10_cycle_example : forall order, (forall l, Permutation (order l) l) ->
+  forall st, pyxis_resolve order 4 cycle_mods <> BOk st.
+Proof. exact cycle_never_accepted. Qed.
+Print Assumptions C10_cycle_example.
